@@ -234,9 +234,8 @@ func rewriteFile(pkg *packages.Package, f *ast.File, sites *[]site) int {
 			if !ok || !etv.Addressable() || addrCtx(c) {
 				return true
 			}
-			if !mentionsLocalField(n.X, localField) {
-				return true // a local slice (parameter, fresh result): not shared state
-			}
+			// also slices held in locals and parameters: a header copied out of a critical section still
+			// points into the shared backing array
 			if writeCtx(c) {
 				acts[n] = "w"
 			} else {
@@ -268,6 +267,10 @@ func rewriteFile(pkg *packages.Package, f *ast.File, sites *[]site) int {
 		case *ast.RangeStmt:
 			if tv, ok := info.Types[n.X]; ok && isMap(tv.Type) && mentionsLocalField(n.X, localField) {
 				acts[n] = "range-m"
+			} else if ok && tv.Type != nil {
+				if _, isSlice := tv.Type.Underlying().(*types.Slice); isSlice && n.Value != nil {
+					acts[n] = "range-s" // the loop reads every element
+				}
 			}
 		case *ast.IncDecStmt:
 			// x.f++ is a read, then a write: split it so that a thread holding no lock can be
@@ -288,6 +291,18 @@ func rewriteFile(pkg *packages.Package, f *ast.File, sites *[]site) int {
 							acts[n] = "delete-m"
 						case "len":
 							acts[n] = "len-m"
+						}
+					}
+					if tv, ok2 := info.Types[n.Args[0]]; ok2 && tv.Type != nil {
+						if _, isSlice := tv.Type.Underlying().(*types.Slice); isSlice {
+							switch b.Name() {
+							case "append":
+								if !n.Ellipsis.IsValid() || len(n.Args) == 2 {
+									acts[n] = "append-s" // may write into the spare capacity behind len
+								}
+							case "copy":
+								acts[n] = "copy-s"
+							}
 						}
 					}
 				}
@@ -371,6 +386,26 @@ func rewriteFile(pkg *packages.Package, f *ast.File, sites *[]site) int {
 		case "range-m":
 			r := n.(*ast.RangeStmt)
 			r.X = call("MR", r.X, newSite(r.X, "mr"))
+		case "range-s":
+			r := n.(*ast.RangeStmt)
+			r.X = call("RS", r.X, newSite(r.X, "rs"))
+		case "append-s":
+			ce := n.(*ast.CallExpr)
+			nargs := &ast.BasicLit{Kind: token.INT, Value: strconv.Itoa(len(ce.Args) - 1)}
+			if ce.Ellipsis.IsValid() {
+				nargs = &ast.BasicLit{Kind: token.INT, Value: "-1"}
+			}
+			ce.Args[0] = call("AP", ce.Args[0], nargs, newSite(n, "ap"))
+		case "copy-s":
+			ce := n.(*ast.CallExpr)
+			ce.Args[0] = call("CW", ce.Args[0], newSite(n, "cw"))
+			if len(ce.Args) > 1 {
+				if tv, ok := info.Types[ce.Args[1]]; ok && tv.Type != nil {
+					if _, isSlice := tv.Type.Underlying().(*types.Slice); isSlice {
+						ce.Args[1] = call("RS", ce.Args[1], newSite(n, "rs"))
+					}
+				}
+			}
 		case "delete-m":
 			ce := n.(*ast.CallExpr)
 			ce.Args[0] = call("MW", ce.Args[0], newSite(n, "mw"))
